@@ -345,6 +345,9 @@ func (vc *FuncVC) execCall(in ssa.Instruction, c *ssa.CallCommon, res ssa.Value)
 		}
 	}
 	if res != nil {
+		if con != nil && con.FreshResult && sig.Results().Len() == 1 {
+			vc.freshVals[res] = true
+		}
 		if result.Tuple == nil && sig.Results().Len() == 1 {
 			vc.defineVal(res, result)
 			vc.vals[res].Typ = res.Type()
@@ -412,7 +415,7 @@ func (vc *FuncVC) havocOpaque(tag string) {
 	}
 	// stable now:x.f.g — the location is resolved in the state before the call
 	for _, d := range vc.C.Stable {
-		if !strings.HasPrefix(d, "now:") {
+		if !strings.HasPrefix(d, "now:") || strings.HasPrefix(d, "comp:") {
 			continue
 		}
 		e, err := ParseExpr(strings.TrimPrefix(d, "now:"))
@@ -428,7 +431,7 @@ func (vc *FuncVC) havocOpaque(tag string) {
 	}
 	// stable x.f[*]: the backing array the slice x.f has right now is not written
 	for _, d := range vc.C.Stable {
-		if !strings.HasSuffix(d, "[*]") {
+		if !strings.HasSuffix(d, "[*]") || strings.HasPrefix(d, "comp:") {
 			continue
 		}
 		e, err := ParseExpr(strings.TrimSuffix(d, "[*]"))
@@ -476,6 +479,10 @@ func (vc *FuncVC) stableLocs() []*Loc {
 		}
 		if strings.HasPrefix(d, "now:") {
 			vc.note("assumed: opaque callees do not write %s (of the object it denotes at the time of the call)", strings.TrimPrefix(d, "now:"))
+			continue
+		}
+		if strings.HasPrefix(d, "comp:") {
+			vc.note("assumed: opaque callees do not write heap component %s (that field of any object)", strings.TrimPrefix(d, "comp:"))
 			continue
 		}
 		e, err := ParseExpr(d)
@@ -1412,6 +1419,9 @@ func varargsArray(v ssa.Value) (*ssa.Alloc, int, types.Type) {
 
 // stableFormula: the stable designator d denotes in state st the same content as at entry.
 func (vc *FuncVC) stableFormula(d string, st *State) Term {
+	if strings.HasPrefix(d, "comp:") {
+		return tTrue
+	}
 	entry := vc.entryState
 	env := vc.newEnv(entry, entry)
 	if strings.HasSuffix(d, "[*]") {
